@@ -153,6 +153,94 @@ Example C18_nonvacuous :
   forallb is_hex (PS "diana") = false.
 Proof. vm_compute. repeat split; reflexivity. Qed.
 
+(* NOTHING A REQUEST SAYS ENTERS THE SUB.  Model/Sub.v grant_sub_rq / grant_sub_conf_rq take the assembled authorization request
+   - redirect_uri plus every other member by name, EXTENSION parameters included (sector_identifier_uri, subject_type, sub_type,
+   salt, sub, user_id, claims ...) - as an explicit argument and follow Authorization._subject_args and SessionManager.create_grant
+   (which, since /repo c7c9b10, no longer falls back on the request's sector_identifier_uri member when the registration yields no
+   sector host).  The driver sends such requests (front channel, request object, pushed request, with a session cookie; and the
+   like at the token endpoint) at public / pairwise / ephemeral clients - also clients whose registered sector has no host - of
+   providers with built-in and configured minters and compares model and provider on them.
+   The sub is the registration's sub (grant_sub / grant_sub_conf, about which the theorems above speak) for every content of the
+   request, unconditionally. *)
+Theorem C18_request_sub_is_registration_sub : forall (H : pystr -> pystr) (host_of : pystr -> pystr) conf r rq uid salt n,
+  grant_sub_conf_rq H host_of conf r rq uid salt n = grant_sub_conf H host_of conf r (rq_redirect rq) uid salt n.
+Proof. exact request_sub_conf_is_registration_sub. Qed.
+Print Assumptions C18_request_sub_is_registration_sub.
+
+Theorem C18_request_sub_is_registration_sub_builtin : forall (H : pystr -> pystr) (host_of : pystr -> pystr) r rq uid salt n,
+  grant_sub_rq H host_of r rq uid salt n = grant_sub H host_of r (rq_redirect rq) uid salt n.
+Proof. exact request_sub_is_registration_sub. Qed.
+Print Assumptions C18_request_sub_is_registration_sub_builtin.
+
+Theorem C18_request_members_irrelevant : forall (H : pystr -> pystr) (host_of : pystr -> pystr) conf r rd ms ms' uid salt n,
+  grant_sub_conf_rq H host_of conf r (mkAreq rd ms) uid salt n = grant_sub_conf_rq H host_of conf r (mkAreq rd ms') uid salt n.
+Proof. exact request_members_irrelevant. Qed.
+Print Assumptions C18_request_members_irrelevant.
+
+(* a client that registered a sector of its own (with or without a host): every request at all (not even its redirect_uri plays a part) *)
+Theorem C18_request_irrelevant : forall (H : pystr -> pystr) (host_of : pystr -> pystr) conf r uid salt n,
+  has_sector r = true ->
+  forall rq rq', grant_sub_conf_rq H host_of conf r rq uid salt n = grant_sub_conf_rq H host_of conf r rq' uid salt n.
+Proof. exact request_irrelevant_registered_sector. Qed.
+Print Assumptions C18_request_irrelevant.
+
+Theorem C18_request_irrelevant_builtin : forall (H : pystr -> pystr) (host_of : pystr -> pystr) r uid salt n,
+  has_sector r = true ->
+  forall rq rq', grant_sub_rq H host_of r rq uid salt n = grant_sub_rq H host_of r rq' uid salt n.
+Proof. exact request_irrelevant_builtin. Qed.
+Print Assumptions C18_request_irrelevant_builtin.
+
+(* a client without a registered sector: the host of the (registered) redirect_uri the request uses is all that counts *)
+Theorem C18_request_irrelevant_same_redirect_host : forall (H : pystr -> pystr) (host_of : pystr -> pystr) conf r rq rq' uid salt n,
+  host_of (sector_source r (rq_redirect rq)) = host_of (sector_source r (rq_redirect rq')) ->
+  grant_sub_conf_rq H host_of conf r rq uid salt n = grant_sub_conf_rq H host_of conf r rq' uid salt n.
+Proof. exact request_irrelevant_same_host. Qed.
+Print Assumptions C18_request_irrelevant_same_redirect_host.
+
+(* minters that do not look at the sector: also across redirect hosts *)
+Theorem C18_request_irrelevant_public : forall (H : pystr -> pystr) (host_of : pystr -> pystr) r uid salt n,
+  subtype_of r = Public -> forall rq rq', grant_sub_rq H host_of r rq uid salt n = grant_sub_rq H host_of r rq' uid salt n.
+Proof. exact request_irrelevant_public. Qed.
+Print Assumptions C18_request_irrelevant_public.
+
+Theorem C18_request_irrelevant_ephemeral : forall (H : pystr -> pystr) (host_of : pystr -> pystr) r uid salt n,
+  subtype_of r = Ephemeral -> forall rq rq', grant_sub_rq H host_of r rq uid salt n = grant_sub_rq H host_of r rq' uid salt n.
+Proof. exact request_irrelevant_ephemeral. Qed.
+Print Assumptions C18_request_irrelevant_ephemeral.
+
+Theorem C18_request_irrelevant_sector_blind_minter : forall (H : pystr -> pystr) (host_of : pystr -> pystr) conf r uid salt n m,
+  assoc (type_key_of r) (minter_table conf) = Some m ->
+  (match m with MHash _ us _ => us = false | MFresh => True end) ->
+  forall rq rq', grant_sub_conf_rq H host_of conf r rq uid salt n = grant_sub_conf_rq H host_of conf r rq' uid salt n.
+Proof. exact request_irrelevant_sector_blind. Qed.
+Print Assumptions C18_request_irrelevant_sector_blind_minter.
+
+(* no request moves a client into another client's sector *)
+Theorem C18_request_pairwise_iff_registered_sector : forall (H : pystr -> pystr) (host_of : pystr -> pystr),
+  (forall a b, H a = H b -> a = b) ->
+  forall r1 r2 rq1 rq2 uid salt n1 n2,
+  subtype_of r1 = Pairwise -> subtype_of r2 = Pairwise ->
+  (grant_sub_rq H host_of r1 rq1 uid salt n1 = grant_sub_rq H host_of r2 rq2 uid salt n2
+   <-> subject_sector host_of r1 rq1 = subject_sector host_of r2 rq2).
+Proof. exact request_pairwise_iff_registered_sector. Qed.
+Print Assumptions C18_request_pairwise_iff_registered_sector.
+
+(* non-vacuity of the request part: a request naming another sector / subject type gets the registration's sector - at a client with
+   a registered sector, at one without (redirect host), and at one whose registered sector has NO host (a bare host name as
+   sector_id, for which urlparse finds no hostname): the empty sector, with and without the request's member *)
+Example C18_request_nonvacuous :
+  let host_of := fun x => if str_eqb x (PS "https://a.example.org/s") then PS "a.example.org"
+                          else if str_eqb x (PS "https://rp.example.com/cb") then PS "rp.example.com" else [] in
+  let r1 := mkCreg (Some (PS "pairwise")) None (Some (PS "https://a.example.org/s")) in
+  let r2 := mkCreg (Some (PS "pairwise")) None None in
+  let r3 := mkCreg (Some (PS "pairwise")) (Some (PS "a.example.org")) None in
+  let rq := mkAreq (PS "https://rp.example.com/cb") [(PS "sector_identifier_uri", PS "b.example.org"); (PS "subject_type", PS "public")] in
+  has_sector r1 = true /\ has_sector r2 = false /\ has_sector r3 = true /\
+  grant_sector host_of r1 rq = PS "a.example.org" /\ grant_sector host_of r2 rq = PS "rp.example.com" /\
+  grant_sector host_of r3 (plain_request (PS "https://rp.example.com/cb")) = [] /\
+  grant_sector host_of r3 rq = [].
+Proof. vm_compute. repeat split; reflexivity. Qed.
+
 (* THE SALT SOURCE OVER THE LIFE OF A DEPLOYMENT (PublicID / PairWiseID with `salt` or with `filename`: Model/Sub.v salt_of is
    PairWiseID.__init__ with its READ and CREATE branches, start_up the construction of the configured entries in dict order; the
    driver builds two or three provider instances one after another from the same configuration - salt given, salt file existing
